@@ -150,6 +150,13 @@ def check(ck):
                 if elts is None or len(elts) != n_want:
                     okk = False
                     detail = " with argument %r (a %d-tuple (code, message%s) is required)" % (arg, n_want, ", data" if n_want == 3 else "")
+                elif isinstance(err, D) and "code" in err.items:
+                    # the elements are the reply's own code, message (or trace) and data
+                    exp = [err.items["code"], err.items.get("message", err.items.get("trace")), err.items.get("data", K(None))][:n_want]
+                    same = all(x is not None for x in exp) and all((a_ == b_) or repr(a_) == repr(b_) for a_, b_ in zip(elts, exp))
+                    if not same:
+                        okk = False
+                        detail = " with (%s) instead of the reply's own (%s)" % (", ".join(repr(x) for x in elts), ", ".join(repr(x) for x in exp))
             ck.require(okk, "C06.2", "%s: reply with %s" % (q.fn(fc), label), "%s" % got,
                        "a reply with %s makes the client %s%s; the property requires %s" % (
                            label, ("raise " + got) if got != "returns" else "return a value", detail, want), q.loc(fc, fc.node))
